@@ -12,16 +12,17 @@
 (*      SELECT fingerprint FROM <label index: one row (key, val, fingerprint) per label a series CARRIES>    *)
 (*      WHERE  <global clauses> AND ( clause_1 OR ... OR clause_n )                                          *)
 (*      GROUP BY fingerprint                                                                                 *)
-(*      HAVING groupBitOr( bitShiftLeft(clause_1, 0) + ... + bitShiftLeft(clause_n, n-1) ) == 2^n - 1        *)
+(*      HAVING groupBitOr( bitShiftLeft(toUInt64(clause_1), 0) + ... + bitShiftLeft(toUInt64(clause_n), n-1) ) == 2^n - 1 *)
 (*   clause_i = (key == name_i AND valclause_i(val)),  valclause:  = : val == p,  != : val != p,             *)
-(*   =~ : match(val, p) == 1,  !~ : match(val, p) == 0   where ClickHouse match() SEARCHES p anywhere in val. *)
-(*   clause_i is a UInt8, so bitShiftLeft(clause_i, i-1) is 0 for i > BitWidth (= 8).                         *)
+(*   =~ : match(val, '^(?:p)$') == 1,  !~ : match(val, '^(?:p)$') == 0   (ClickHouse match() SEARCHES a      *)
+(*   pattern anywhere in val; the planners wrap the pattern so that it has to cover the whole value).        *)
+(*   clause_i is widened to UInt64, so bitShiftLeft(.., i-1) is 0 only for i > BitWidth (= 64).               *)
 (*   Profiles: matchers on the pseudo labels (__name__, __period_type__, service_name, ...) are "global":    *)
 (*   they compare columns every index row of the series carries (WHERE, no bit); every profile series has at *)
 (*   least the service_name index row.                                                                       *)
 (*                                                                                                           *)
 (* Values are the two strings "x" and "xy" (x is a proper prefix of xy, so anchoring matters) and "" = label *)
-(* absent.  Regular expressions are atoms given by the sets of values they match fully / somewhere.          *)
+(* absent.  Regular expressions are atoms given by the sets of values they match fully.                      *)
 EXTENDS Integers, Sequences, FiniteSets, TLC
 
 CONSTANTS KV,           \* label names served by the key/value index
@@ -31,7 +32,7 @@ CONSTANTS KV,           \* label names served by the key/value index
           EqPats,       \* values used with = and !=
           RePats,       \* regex atoms used with =~ and !~
           Ops,
-          BitWidth,     \* 8
+          BitWidth,     \* 64
           AllowEmpty,   \* FALSE: at least one matcher (the PromQL parser never produces an empty selector)
           AlwaysRow     \* TRUE: every series has an index row that no key/value matcher refers to (profiles: service_name)
 
@@ -48,12 +49,6 @@ Full(p) == CASE p = "x"  -> {"x"}
              [] p = ".*" -> V0
              [] p = ".+" -> Vals
              [] p = ""   -> {""}
-Part(p) == CASE p = "x"  -> {"x", "xy"}
-             [] p = "xy" -> {"xy"}
-             [] p = "y"  -> {"xy"}
-             [] p = ".*" -> V0
-             [] p = ".+" -> Vals
-             [] p = ""   -> V0
 
 Series == {s \in [Names -> SVals] : \A g \in GL : s[g] # ""}
 
@@ -77,8 +72,8 @@ Selected(d, M) == {s \in d : \A m \in M : Holds(m, s)}
 ValClause(m, v) ==
     CASE m.op = "="  -> v = m.pat
       [] m.op = "!=" -> v # m.pat
-      [] m.op = "=~" -> v \in Part(m.pat)          \* match(val, p) == 1
-      [] m.op = "!~" -> v \notin Part(m.pat)       \* match(val, p) == 0
+      [] m.op = "=~" -> v \in Full(m.pat)          \* match(val, '^(?:p)$') == 1
+      [] m.op = "!~" -> v \notin Full(m.pat)       \* match(val, '^(?:p)$') == 0
 KVm(M) == {m \in M : m.name \in KV}
 GLm(M) == {m \in M : m.name \in GL}
 \* one index row per label the series carries (an absent label has no row)
@@ -88,7 +83,7 @@ IndexRows(d) == {r \in Rows(d) : r.val # ""}
 GlobalOK(s, M) == \A m \in GLm(M) : ValClause(m, s[m.name])
 Clause(m, r) == r.key = m.name /\ ValClause(m, r.val)
 Where(d, M) == {r \in IndexRows(d) : GlobalOK(r.fp, M) /\ (KVm(M) = {} \/ \E m \in KVm(M) : Clause(m, r))}
-\* the bits set for fingerprint s (a bit position beyond BitWidth is shifted out of the UInt8)
+\* the bits set for fingerprint s (a bit position beyond BitWidth is shifted out of the UInt64)
 Mask(W, M, s) == {m \in KVm(M) : Cardinality(KVm(M)) <= BitWidth /\ \E r \in W : r.fp = s /\ Clause(m, r)}
 MechSelected(d, M) == LET W == Where(d, M) IN            \* the rows that pass WHERE, then GROUP BY fingerprint / HAVING
                       {s \in d : /\ \E r \in W : r.fp = s
@@ -98,9 +93,6 @@ MechSelected(d, M) == LET W == Where(d, M) IN            \* the rows that pass W
 \* per (matcher, series) traits of the mechanism that are not in the definition
 Traits(d, M) ==
        {"missing|" \o m.op : m \in {m2 \in KVm(M) : \E s \in d : s[m2.name] = "" /\ Holds(m2, s)}}
-  \cup {"unanchored|" \o m.op : m \in {m2 \in M : m2.op \in {"=~", "!~"} /\ \E s \in d :
-                                        (s[m2.name] \in Full(m2.pat)) # (s[m2.name] \in Part(m2.pat))
-                                        /\ (s[m2.name] # "" \/ m2.name \in GL)}}
   \cup (IF Cardinality(KVm(M)) > BitWidth THEN {"bitwidth"} ELSE {})
   \cup (IF ~AlwaysRow /\ KVm(M) = {} /\ \E s \in d : \A k \in KV : s[k] = "" THEN {"norows"} ELSE {})
 
